@@ -171,13 +171,18 @@ def _emit_raw(e, out):
             out.append(BR(-1))
         out.append("}")
     elif k == "select":
-        if e[1][0] in ("int", "float", "path", "uri"):
+        spaced = e[1][0] == "path" and len(str(e[1])) % 2 == 0 and not str(e[1][1]).startswith("<")
+        if spaced:
+            # `./a .b`: a select from a path literal needs the space (`./a.b` is another path)
+            _emit_raw(e[1], out)
+        elif e[1][0] in ("int", "float", "path", "uri"):
             out.append("(")
             _emit_raw(e[1], out)
             out.append(")")
         else:
             _emit(e[1], L_SIMPLE, out)
-        out.append(GLUE)
+        if not spaced:
+            out.append(GLUE)
         out.append(".")
         out.append(GLUE)
         _emit_attrpath(e[2], out)
